@@ -1,7 +1,7 @@
 """C20 - DEF data is extracted as written, with wildcards and via arrays expanded."""
 from hypothesis import strategies as st
 
-from vk.core import Violation, Obs, Part
+from vk.core import Violation, Obs, Part, HarnessError
 
 ID = 'C20'
 RULE = ('Part long: nets with one routed segment of 1500-20000 points (almost all with a * coordinate) and vias. Part roundtrip: Hypothesis-generated DEF models rendered to text in the supported subset: header statements, DESIGN, UNITS, DIEAREA (2..4 points), ROW and TRACKS '
@@ -12,7 +12,7 @@ RULE = ('Part long: nets with one routed segment of 1500-20000 points (almost al
         'net.vias[via] equals the multiset of absolute positions with wildcards resolved and arrays expanded, net.wires[layer] equals the per-segment '
         'point lists (compared after resolving wildcards, so resolved and as-written forms are both accepted; width for special nets). Every text is parsed twice '
         'in a row and both results are compared with the model. '
-        'non-trivial: a net with >= 2 segments, a wildcard after a via, and a via array with n, m >= 2; distinct by SHA-1 of the model. One coordinate in ten lies between 2^53 and 2^62.')
+        'non-trivial: a net with >= 2 segments, a wildcard after a via, and a via array with n, m >= 2; distinct by SHA-1 of the model. One coordinate in ten lies between 2^53 and 2^62. Some cases also go through load(): the text in a scratch file (plain or .gz), then the file replaced by a text of the same length and loaded again from the same path.')
 ASSUMPTIONS = ['supported subset only: non-negative integer coordinates, one ROUTED statement per net (optionally followed by one FIXED / COVER / NOSHIELD statement on a layer of its own), ROW with exactly one of DO/BY different from 1',
                'order inside net.vias[via] is not specified: compared as multisets']
 
@@ -223,6 +223,19 @@ def prop(m):
     text = render(m)
     obs = compare(m, def_file.parse(text), '')
     compare(m, def_file.parse(text), 'same text parsed a second time: ')      # extraction is a function of the text alone
+    via = (m['ws'] >> 21) % 4
+    if via >= 2:
+        # the same through load(): the text in a file (plain or .gz), then the file replaced by a text of the same length (another design name)
+        # and loaded again from the same path - each load reports what the file states at that moment
+        from vk.files import with_files
+        m2 = dict(m, design=('Z' if m['design'][0] != 'Z' else 'Y') + m['design'][1:])
+        text2 = render(m2)
+        if len(text2) != len(text):
+            raise HarnessError('renderer: the two texts differ in length')
+        d1, d2 = with_files([text, text2], '.def', via == 3, False, def_file.load)
+        compare(m, d1, f'load() of a {"gzip " if via == 3 else ""}file: ')
+        compare(m2, d2, f'load() of the same {"gzip " if via == 3 else ""}path after the file was replaced (same size): ')
+        obs.labels = tuple(obs.labels) + ('loaded_from_file_twice',)
     return obs
 
 
